@@ -6,7 +6,8 @@
    WrapIfNotCommonError, to any nesting depth, with any messages (any bytes), and k is the kind it was given". *)
 From Coq Require Import List ZArith Bool Lia.
 Import ListNotations.
-From GU Require Import C11.Gen C11.Bytes C11.Model C11.Proofs.
+From Coq Require Import String.
+From GU Require Import C11.Gen C11.GenConv C11.Bytes C11.Model C11.Proofs C11.Conv C11.ProofsConv.
 Local Open Scope Z_scope.
 
 (* Every constructed error is recognised by errors.Is and by Any as the kind it was given — and as no other kind, and
@@ -68,15 +69,59 @@ Theorem roundtrip_join_kinds : forall ps : list (err * nat), ps <> [] ->
 Proof. exact roundtrip_join_kinds_l. Qed.
 Print Assumptions roundtrip_join_kinds.
 
-(* Converters.  Full statement planned (DESIGN.md, converters_stable): "each converter is idempotent, lets context errors
-   through, and maps every backend condition in its table to one kind".  Proved here: ConvertIOError completely
-   (idempotent; a context error becomes exactly cancelled / timeout; io.EOF / io.ErrUnexpectedEOF, bare or wrapped,
-   become exactly ErrEOF); for the rule-list converters (ConvertFileSystemError, ConvertProcessError), WHATEVER their
-   rule predicates are: a context cause passes as exactly its kind; otherwise the first matching rule decides and the
-   result is of exactly that rule's kind; no rule = the error as it was.  Missing (hence _partial): which backend value
-   satisfies which predicate, and kind-level idempotence of the two rule-list converters (it depends on the text
-   predicates); both are checked on the implementation by the harness against a table of every value they mention. *)
-Theorem converters_stable_partial :
+(* Converters, over the GENERATED ordered rule tables (GenConv.v) of ConvertFileSystemError, ConvertIOError,
+   ConvertProcessError and platform.ConvertError, interpreted with the real definitions of errors.Is (incl.
+   syscall.Errno.Is), os.IsTimeout / IsExist / IsNotExist / IsPermission (os.underlyingError) and CorrespondTo over
+   the backend error values [berr] (errno, named value of os / io / afero / exec / filesystem, errors.New, *PathError,
+   %w wrapper, errors.Join, context errors).
+
+   1. Context errors pass: for EVERY backend value e (any shape, any depth) that is or wraps context.Canceled resp.
+      context.DeadlineExceeded, each converter returns an error of exactly the kind cancelled resp. timeout. *)
+Theorem converters_context_pass : forall e k, b_ctx_kind_of e = Some k ->
+  res_kinds (conv_fs e) = Some [k] /\ res_kinds (conv_io e) = Some [k] /\ res_kinds (conv_proc e) = Some [k].
+Proof. exact converters_context_l. Qed.
+Print Assumptions converters_context_pass.
+
+(* 2. One stable kind.  For every base condition c of the domain (every named value, errno and text the tables
+      mention, and an unrelated error) and EVERY stack w of frames (*PathError/*LinkError/*SyscallError, fmt.Errorf %w,
+      errors.Join with an unrelated error; any depth; frame texts that do not themselves spell one of the strings the
+      text predicates look for): the converter gives w[c] the same kinds as c (or nil for both) — independent of the
+      wrapping —, that is at most one kind, and converting the result again does not change its kinds (idempotent at
+      kind level).  The domain of the filesystem converter excludes the two errnos it can only recognise through
+      os.IsTimeout (EAGAIN, ETIMEDOUT): for them the statement is FALSE, see the next theorem. *)
+Theorem converters_stable :
+  (forall c w, In c fs_domain -> forallb frame_ok w = true ->
+     res_kinds (conv_fs (plug w c)) = res_kinds (conv_fs c) /\ at_most_one (res_kinds (conv_fs c)) = true /\
+     match conv_fs (plug w c) with CNil => True | CErr r => res_kinds (conv_fs r) = Some (b_kinds r) end) /\
+  (forall c w, In c base_conds -> forallb frame_ok w = true ->
+     res_kinds (conv_io (plug w c)) = res_kinds (conv_io c) /\ at_most_one (res_kinds (conv_io c)) = true /\
+     match conv_io (plug w c) with CNil => True | CErr r => res_kinds (conv_io r) = Some (b_kinds r) end) /\
+  (forall c w, In c base_conds -> forallb frame_ok w = true ->
+     res_kinds (conv_proc (plug w c)) = res_kinds (conv_proc c) /\ at_most_one (res_kinds (conv_proc c)) = true /\
+     match conv_proc (plug w c) with CNil => True | CErr r => res_kinds (conv_proc r) = Some (b_kinds r) end).
+Proof. exact converters_wrapping_l. Qed.
+Print Assumptions converters_stable.
+
+(* 3. The excluded part is really false of the code: ETIMEDOUT maps to timeout when bare (or inside a *PathError), to
+      no kind at all under one %w wrapper — os.IsTimeout does not look through it and no errors.Is-based or textual
+      predicate of the timeout case recognises the errno.  Replayed on the implementation by the harness first on every
+      run (signature converter-wrapping:fs:errno-timeout). *)
+Theorem converters_stable_errno_timeout_refuted :
+  exists n w, errno_timeout n = true /\ forallb frame_ok w = true /\
+    res_kinds (conv_fs (BErrno n)) = Some [ErrTimeout] /\ res_kinds (conv_fs (plug w (BErrno n))) = Some [].
+Proof. exact fs_errno_timeout_wrapping_refuted_l. Qed.
+Print Assumptions converters_stable_errno_timeout_refuted.
+
+(* 4. Every name of the generated tables (predicate helper, errors.Is target, pre-step) is one this model interprets. *)
+Theorem converter_tables_wellformed : tables_ok = true.
+Proof. exact tables_ok_l. Qed.
+Print Assumptions converter_tables_wellformed.
+
+(* 5. The shape, for ANY rule predicates (first development; kept): ConvertIOError on the chain model of Model.v is
+      idempotent, turns context errors into cancelled / timeout and io.EOF / io.ErrUnexpectedEOF into ErrEOF; a
+      rule-list converter lets a context cause pass as exactly its kind and otherwise gives exactly the kind of the
+      first rule that fires. *)
+Theorem converters_first_rule_decides :
   (forall e, convert_io (convert_io e) = convert_io e /\
              (forall k, ctx_kind_of e = Some k -> convert_io e = Sent k) /\
              (ctx_kind_of e = None -> any (Some e) io_targets = true -> exactly (convert_io e) ErrEOF)) /\
@@ -87,7 +132,15 @@ Theorem converters_stable_partial :
      (any (Some (convert_ctx e)) ctx_kinds = false -> first_rule rs (convert_ctx e) = None ->
                   convert_rules rs e = convert_ctx e)).
 Proof. split; [exact convert_io_l | exact convert_rules_l]. Qed.
-Print Assumptions converters_stable_partial.
+Print Assumptions converters_first_rule_decides.
+
+Example converters_stable_nonvacuous :
+  In (BErrno 2) fs_domain /\ In (tv "afero.ErrFileNotFound") fs_domain /\
+  forallb frame_ok [FWrap (s2b "while testing"); FJoinL (s2b "cleanup failed too"); FPath (s2b "open /x/y")] = true /\
+  res_kinds (conv_fs (plug [FWrap (s2b "while testing"); FPath (s2b "open /x/y")] (BErrno 2))) = Some [ErrNotFound] /\
+  b_ctx_kind_of (BPath (s2b "read /x") (BJoin (BOpaque (s2b "noise")) BDeadline)) = Some ErrTimeout.
+Proof. vm_compute. repeat split; auto 40. Qed.
+
 
 (* Non-vacuity and the defect D18: the code BEFORE the patch ([serialise_gen false]) duplicates the reason of
    New(New(invalid,"foo"),"bar"); the patched code does not. *)
